@@ -147,7 +147,7 @@ Record wf_side (h : heap) (sd : side) : Prop := {
   wf_lname : forall nl, In nl (layers_of sd) -> l_name (getl h (snd nl)) = fst nl;
   wf_agents_lt : forall c a, In c (cells_of sd) -> In a (k_agents (getc h c)) -> (a < length (h_agents h))%nat;
   wf_mirror : forall c a, In c (cells_of sd) -> In a (k_agents (getc h c)) -> a_cell (geta h a) = Some c;
-  wf_agents_nodup : NoDup (agents_of h (cells_of sd));
+  wf_cell_agents_nodup : forall c, In c (cells_of sd) -> NoDup (k_agents (getc h c));
   wf_conns : forall i, (i < length (cells_of sd))%nat ->
              k_conns (getc h (nth i (cells_of sd) O))
              = map (fun kj => (fst kj, nth (snd kj) (cells_of sd) O)) (nth i (s_geom (sd_space sd)) []);
@@ -156,8 +156,60 @@ Record wf_side (h : heap) (sd : side) : Prop := {
   wf_klass_lt : (s_klass (sd_space sd) < length (h_classes h))%nat;
   wf_tab : forall la, In la (sd_tab sd) ->
            (snd la < length (h_agents h))%nat /\
-           (forall c, a_cell (geta h (snd la)) = Some c -> In c (cells_of sd) /\ In (snd la) (k_agents (getc h c)))
+           (forall c, a_cell (geta h (snd la)) = Some c -> In c (cells_of sd) /\ In (snd la) (k_agents (getc h c)));
+  wf_agents_tab : forall c a, In c (cells_of sd) -> In a (k_agents (getc h c)) -> In a (map snd (sd_tab sd))
 }.
+
+Lemma NoDup_app_iff {A : Type} (l1 l2 : list A) :
+  NoDup (l1 ++ l2) <-> NoDup l1 /\ NoDup l2 /\ (forall x, In x l1 -> ~ In x l2).
+Proof.
+  induction l1 as [|x t IH]; simpl.
+  - split; [intros H; repeat split; [constructor|exact H|intros ? []]|intros [_ [H _]]; exact H].
+  - split.
+    + intros H. inversion H as [|? ? Hnin Hnd]; subst. apply IH in Hnd. destruct Hnd as [H1 [H2 H3]].
+      repeat split.
+      * constructor; [intros Hin; apply Hnin; apply in_or_app; left; exact Hin|exact H1].
+      * exact H2.
+      * intros y [Hy|Hy]; [subst; intros Hin; apply Hnin; apply in_or_app; right; exact Hin|apply H3; exact Hy].
+    + intros [H1 [H2 H3]]. inversion H1 as [|? ? Hnin Hnd]; subst. constructor.
+      * intros Hin. apply in_app_or in Hin. destruct Hin as [Hin|Hin]; [exact (Hnin Hin)|].
+        apply (H3 x); [left; reflexivity|exact Hin].
+      * apply IH. repeat split; [exact Hnd|exact H2|intros y Hy; apply H3; right; exact Hy].
+Qed.
+
+Lemma NoDup_flat_map_intro {A B : Type} (f : A -> list B) (l : list A) :
+  NoDup l -> (forall c, In c l -> NoDup (f c)) ->
+  (forall c1 c2 x, In c1 l -> In c2 l -> In x (f c1) -> In x (f c2) -> c1 = c2) ->
+  NoDup (flat_map f l).
+Proof.
+  induction l as [|c t IH]; intros Hnd Hpart Hsep; simpl; [constructor|].
+  inversion Hnd as [|? ? Hnin Hnd']; subst.
+  apply NoDup_app_iff. repeat split.
+  - apply Hpart. left; reflexivity.
+  - apply IH; [exact Hnd'|intros; apply Hpart; right; assumption|].
+    intros c1 c2 x H1 H2. apply Hsep; right; assumption.
+  - intros x Hx Hin. apply in_flat_map in Hin. destruct Hin as [c2 [Hc2 Hx2]].
+    assert (c = c2) by (apply (Hsep c c2 x); [left; reflexivity|right; exact Hc2|exact Hx|exact Hx2]).
+    subst. exact (Hnin Hc2).
+Qed.
+
+Lemma NoDup_flat_map_part {A B : Type} (f : A -> list B) (l : list A) c :
+  NoDup (flat_map f l) -> In c l -> NoDup (f c).
+Proof.
+  induction l as [|y t IH]; simpl; intros Hnd Hin; [contradiction|].
+  apply NoDup_app_iff in Hnd. destruct Hnd as [H1 [H2 _]].
+  destruct Hin as [->|Hin]; [exact H1|apply IH; assumption].
+Qed.
+
+Lemma wf_agents_nodup h sd : wf_side h sd -> NoDup (agents_of h (cells_of sd)).
+Proof.
+  intros W. unfold agents_of. apply NoDup_flat_map_intro.
+  - apply (wf_cells_nodup _ _ W).
+  - apply (wf_cell_agents_nodup _ _ W).
+  - intros c1 c2 x H1 H2 Hx1 Hx2.
+    pose proof (wf_mirror _ _ W _ _ H1 Hx1) as E1. pose proof (wf_mirror _ _ W _ _ H2 Hx2) as E2.
+    rewrite E1 in E2. inversion E2. reflexivity.
+Qed.
 
 (* ------------------------------------------------------------------ the pieces of copy_space *)
 Definition cs_agents (h : heap) (sd : side) : list nat := agents_of h (cells_of sd).
@@ -457,7 +509,9 @@ Proof.
     destruct (index_of_Some _ _ _ Hj) as [Hlt Hnth].
     rewrite copy_geta_new by exact Hlt. rewrite Hnth. unfold copy_agent. cbn [a_cell].
     rewrite (wf_mirror _ _ W _ _ Hci Ha0). apply tr_cell_nth; assumption.
-  - (* agents_nodup *) rewrite (copy_agents_of _ _ W). apply seq_NoDup.
+  - (* cell_agents_nodup *) intros c Hc.
+    apply (NoDup_flat_map_part (fun c => k_agents (getc (copy_heap h sd) c)) (cells_of (copy_side h sd))); [|exact Hc].
+    fold (agents_of (copy_heap h sd) (cells_of (copy_side h sd))). rewrite (copy_agents_of _ _ W). apply seq_NoDup.
   - (* conns *) intros i Hi. rewrite copy_side_cells in *. rewrite seq_length in Hi.
     rewrite seq_nth by exact Hi. rewrite copy_getc_new by exact Hi. cbn [copy_cell k_conns fst snd].
     rewrite copy_side_geom. apply map_ext_in. intros kj Hkj.
@@ -485,6 +539,15 @@ Proof.
     + rewrite copy_side_cells. apply in_seq. lia.
     + rewrite copy_getc_new by exact Hi. cbn [copy_cell k_agents snd]. rewrite Hnth.
       apply in_map_iff. exists a0. split; [|exact Ha0]. unfold a0. apply tr_agent_nth; assumption.
+  - (* agents_tab *) intros c a Hc Ha. destruct (copy_in_cells _ _ _ Hc) as [i [Hi ->]].
+    rewrite copy_getc_new in Ha by exact Hi. cbn [copy_cell k_agents snd] in Ha.
+    apply in_map_iff in Ha. destruct Ha as [a0 [<- Ha0]].
+    assert (Hin0 : In a0 (cs_agents h sd)) by (eapply in_cs_agents; [apply nth_In; exact Hi|exact Ha0]).
+    destruct (index_of_In _ _ Hin0) as [j Hj]. unfold tr_agent. rewrite Hj.
+    destruct (index_of_Some _ _ _ Hj) as [Hlt _].
+    rewrite copy_side_tab.
+    rewrite map_snd_combine by (rewrite map_length, cs_newagents_length, seq_length; reflexivity).
+    apply in_seq. lia.
 Qed.
 
 Lemma copy_nogrid_ok h sd : nogrid_ok sd -> nogrid_ok (copy_side h sd).
